@@ -296,6 +296,13 @@ def k_pdu_history(ctx, kind, cfg, p, steps, start="constructed", conf_dir=None):
                 ctx.fail("history.setter", "wrong_error_for_value_that_does_not_fit", f"{kind}.{step[0]}/{type(err).__name__}", case, step=i, error=repr(err))
                 return
             continue
+        if start == "decoded" and i % 2 == 0:
+            # a receive loop goes on decoding while this PDU is being edited: another PDU with another header configuration
+            _r = random.Random(f"interfere/{kind}/{i}/{len(steps)}")
+            k2 = _r.choice(C.KINDS8)
+            c2 = C.rand_cfg(_r)
+            attempt(X.CLS[k2].unpack, C.ref_octets(k2, c2, C.rand_params(_r, k2, c2, rich=False)))
+            ctx.table("interfering_decodes", k2)
         ok, err = attempt(apply_lib, kind, pdu, step)
         if not ctx.check("history.setter", ok, "raised", f"{kind}.{step[0]}/" + (exc_sig(err) if not ok else ""), case, step=i, error=repr(err)):
             return
